@@ -134,7 +134,7 @@ pub trait TyVisitor {
     fn visit<T: TypeInfo + ?Sized + 'static>(self) -> Self::Out;
 }
 
-pub const N_SHAPES: u8 = 44;
+pub const N_SHAPES: u8 = 49;
 const DELTAS: [usize; 3] = [0, 1, 5];
 
 fn with_shape_jk<const J: usize, const K: usize, V: TyVisitor>(shape: u8, v: V) -> V::Out {
@@ -183,7 +183,41 @@ fn with_shape_jk<const J: usize, const K: usize, V: TyVisitor>(shape: u8, v: V) 
         41 => v.visit::<[A<J>; 3]>(),
         42 => v.visit::<std::collections::BTreeSet<N<J>>>(),
         43 => v.visit::<Cow<'static, N<J>>>(),
+        44..=48 => with_twin(shape, v),
         _ => v.visit::<u64>(),
+    }
+}
+
+/// Two *distinct* types that share their fully qualified name (`...::with_twin::Twin`): items of
+/// the same name declared in sibling blocks of one function. Anything keyed on a type's name
+/// instead of its identity confuses them.
+fn with_twin<V: TyVisitor>(shape: u8, v: V) -> V::Out {
+    macro_rules! twin_impl {
+        () => {
+            #[derive(Clone)]
+            #[allow(dead_code)]
+            struct Twin;
+            impl TypeInfo for Twin {
+                type Identity = Self;
+                fn type_info() -> Type {
+                    Type::builder().path(Path::new("Twin", "twins")).composite(Fields::unit())
+                }
+            }
+        };
+    }
+    if shape % 2 == 0 {
+        twin_impl!();
+        match shape {
+            44 => v.visit::<Twin>(),
+            46 => v.visit::<Option<Vec<Twin>>>(),
+            _ => v.visit::<Box<Twin>>(),
+        }
+    } else {
+        twin_impl!();
+        match shape {
+            45 => v.visit::<Twin>(),
+            _ => v.visit::<Option<Vec<Twin>>>(),
+        }
     }
 }
 
@@ -267,6 +301,8 @@ pub enum Ty {
     Cow(Box<Ty>),
     Compact(Box<Ty>),
     Phantom(Box<Ty>),
+    /// one of two distinct types sharing one fully qualified name
+    Twin(u8),
 }
 
 fn b(t: Ty) -> Box<Ty> {
@@ -324,6 +360,11 @@ pub fn ty_of(t: &Target) -> Ty {
         41 => Ty::Arr3(b(Ty::A(j))),
         42 => Ty::Set(b(x())),
         43 => Ty::Cow(b(x())),
+        44 => Ty::Twin(0),
+        45 => Ty::Twin(1),
+        46 => Ty::Option(b(Ty::Vec(b(Ty::Twin(0))))),
+        47 => Ty::Option(b(Ty::Vec(b(Ty::Twin(1))))),
+        48 => Ty::Box(b(Ty::Twin(0))),
         _ => Ty::U64,
     }
 }
@@ -508,6 +549,7 @@ pub fn desc(id: &Ident, spec: &GraphSpec) -> Desc {
                 docs: Some(vec![]),
             },
             Ty::Compact(x) => plain(DDef::Compact((**x).clone())),
+            Ty::Twin(_) => Desc { path: vec![s("twins"), s("Twin")], params: vec![], def: DDef::Composite(vec![]), docs: Some(vec![]) },
             other => panic!("harness: no description for exact type {other:?}"),
         },
     }
@@ -626,7 +668,8 @@ pub mod gen {
                 6 => 0u8..9,
                 4 => 9u8..26,
                 2 => 26u8..38,
-                2 => 38u8..N_SHAPES,
+                2 => 38u8..44,
+                1 => 44u8..N_SHAPES,
             ],
             0u8..NN as u8,
             0u8..3,
